@@ -115,6 +115,11 @@ pub(super) struct State {
     /// the DPOR algorithm.
     last_access: Option<Access>,
 
+    /// Last time each thread loaded from the atomic. A store is dependent
+    /// with the last load of *every* thread; a single slot would let the
+    /// storing thread's own load hide another thread's racing load.
+    last_load_access: [Option<Access>; MAX_THREADS],
+
     /// Last time the atomic was accessed for a store or rmw operation.
     last_non_load_access: Option<Access>,
 
@@ -416,6 +421,7 @@ impl State {
             unsync_mut_locations: LocationSet::new(),
             is_mutating: false,
             last_access: None,
+            last_load_access: Default::default(),
             last_non_load_access: None,
             stores: Default::default(),
             cnt: 0,
@@ -858,13 +864,30 @@ impl State {
         }
     }
 
+    /// Returns the last load of each thread if `action` is dependent with
+    /// loads (in addition to `last_dependent_access`).
+    pub(super) fn last_dependent_loads(&self, action: Action) -> &[Option<Access>] {
+        match action {
+            Action::Load => &[],
+            _ => &self.last_load_access,
+        }
+    }
+
     /// Sets the last dependent access
-    pub(super) fn set_last_access(&mut self, action: Action, path_id: usize, version: &VersionVec) {
+    pub(super) fn set_last_access(
+        &mut self,
+        action: Action,
+        thread: usize,
+        path_id: usize,
+        version: &VersionVec,
+    ) {
         // Always set `last_access`
         Access::set_or_create(&mut self.last_access, path_id, version);
 
         match action {
-            Action::Load => {}
+            Action::Load => {
+                Access::set_or_create(&mut self.last_load_access[thread], path_id, version);
+            }
             _ => {
                 // Stores / RMWs
                 Access::set_or_create(&mut self.last_non_load_access, path_id, version);
